@@ -135,6 +135,41 @@ Ltac prule_sound :=
   unfold psound; intros env Hok Hc x y; cbn [pr_lhs pr_rhs pr_conds] in *; use_pconds;
   pcbn; repeat pstep; pfinish Hok.
 
+(** ** buildability: the scoping tests of the right-hand side follow from those of the left-hand side *)
+Ltac scope_solve :=
+  repeat match goal with
+         | H : inclb _ _ = true |- _ => rewrite inclb_spec in H
+         | H : disjb _ _ = true |- _ => rewrite disjb_spec in H
+         end;
+  first [ rewrite inclb_spec | rewrite disjb_spec ];
+  let c := fresh "c" in intros c;
+  repeat match goal with H : forall c0 : nat, _ |- _ => specialize (H c) end;
+  rewrite ?in_app_iff in *; cbn [In] in *; tauto.
+(** the branch in which a scoping test of the right-hand side fails is impossible: the test follows from the tests the
+    left-hand side passed and from the side conditions *)
+Ltac kill_false :=
+  exfalso;
+  match goal with
+  | Hf : ?b = false |- _ =>
+      assert (b = true) by (rewrite ?andb_true_iff; repeat split; first [reflexivity | scope_solve | rewrite forallb_inclb_app_comm; assumption]); congruence
+  end.
+Ltac pbuild_finish Hok :=
+  let H1 := fresh "H1" in
+  intros H1;
+  repeat match goal with
+         | H : MExpr _ _ = MExpr _ _ |- _ => inversion H; subst; clear H
+         | H : MRel _ _ = MRel _ _ |- _ => inversion H; subst; clear H
+         | H : Some _ = Some _ |- _ => inversion H; subst; clear H
+         end;
+  scope_facts;
+  first [ eexists; reflexivity | kill_false ].
+Ltac prule_buildable :=
+  match goal with |- pbuildable ?r => unfold r end;
+  let env := fresh "env" in let Hok := fresh "Hok" in let Hc := fresh "Hc" in
+  unfold pbuildable; intros env Hok Hc x; cbn [pr_lhs pr_rhs pr_conds] in *; use_pconds;
+  pcbn; repeat pstep; pbuild_finish Hok.
+
+
 (** refutation from an explicit binding *)
 Definition penv_of (l : list (string * sem)) : string -> sem :=
   fun s => match find (fun p => String.eqb (fst p) s) l with Some p => snd p | None => MList [] end.
